@@ -10,20 +10,23 @@
 EXTENDS Cli, Json, IOUtils, SequencesExt
 
 Rec == ndJsonDeserialize(IOEnv.TRACE)
-MaxVerdicts == 40
+MaxVerdicts == 60
 VARIABLES l, mode, before, ops, skipping, verdicts, nverdicts, nscen, nok
 tvars == <<l, mode, before, ops, skipping, verdicts, nverdicts, nscen, nok>>
 Ev == Rec[l]
+\* a verdict does not end the scenario: the rules of the other property keep being judged on the rest of the run
+\* (a first verdict owned by C16 must not hide what C14 has to say about the same run, and vice versa); one verdict per rule and scenario
 Flag(rule) ==
-  /\ verdicts' = IF nverdicts < MaxVerdicts THEN Append(verdicts, [scenario |-> nscen, line |-> l, rule |-> rule]) ELSE verdicts
-  /\ nverdicts' = nverdicts + 1
-  /\ skipping' = TRUE
+  LET dup == \E i \in 1..Len(verdicts) : verdicts[i].scenario = nscen /\ verdicts[i].rule = rule IN
+  /\ verdicts' = IF nverdicts < MaxVerdicts /\ ~dup THEN Append(verdicts, [scenario |-> nscen, line |-> l, rule |-> rule]) ELSE verdicts
+  /\ nverdicts' = IF dup THEN nverdicts ELSE nverdicts + 1
+  /\ UNCHANGED skipping
 NoFlag == UNCHANGED <<verdicts, nverdicts, skipping>>
 NoMode == [cmd |-> "none"]
 TInit == /\ l = 1 /\ mode = NoMode /\ before = [exists |-> FALSE] /\ ops = <<>> /\ skipping = TRUE
          /\ verdicts = <<>> /\ nverdicts = 0 /\ nscen = 0 /\ nok = 0
-         /\ m = NoMode /\ pc = "trace" /\ touched = {} /\ exit = -1 /\ outstate = "none"
-Unused == UNCHANGED <<m, pc, touched, exit, outstate>>
+         /\ m = NoMode /\ pc = "trace" /\ touched = {} /\ exit = -1 /\ outstate = "none" /\ appeared = FALSE
+Unused == UNCHANGED <<m, pc, touched, exit, outstate, appeared>>
 
 Scenario == /\ l <= Len(Rec) /\ Ev.ev = "scenario" /\ l' = l + 1
             /\ mode' = Ev /\ ops' = <<>> /\ skipping' = FALSE /\ nscen' = Ev.n
@@ -63,7 +66,10 @@ AfterRule(e) ==
   ELSE IF ref # "none" /\ (e.exists # before.exists \/ e.len # before.len \/ e.digest # before.digest)
        THEN "C14 UNTOUCHED: the output changed (content, length or existence) although the operation was refused"
   ELSE IF ref \in {"archive", "pin"} /\ e.new_files # <<>> THEN "C14 NOCREATE: a file was created although the archive is invalid or the header checksum does not match"
-  ELSE IF ref = "none" /\ e.exit # 0 /\ ~VerifyFailsO1(mode) THEN "C14 RUN: the command failed although nothing calls for a refusal"
+  ELSE IF ref = "none" /\ e.exit # 0 /\ ~VerifyFailsO1(mode) /\ ~LateFailure(mode) THEN "C14 RUN: the command failed although nothing calls for a refusal"
+  \* a clone that meets a damaged chunk fails (C04), and - C16 - removes nothing: the output it opened is still there
+  ELSE IF LateFailure(mode) /\ e.exit = 0 THEN "C04 WRONGSUCCESS: a clone that had to fetch a damaged chunk reported success"
+  ELSE IF LateFailure(mode) /\ ~e.exists THEN "C16 ONLYOUTPUT: a clone that failed while it worked removed the output"
   \* a stale file at the temp path is compress's temporary chunk file from the moment it is re-used: removed after success, untouched by a refused run
   ELSE IF mode.cmd = "compress" /\ mode.stale_tmp # "none" /\ ref # "none" /\ (e.gone_files # <<>> \/ ~e.tmp_unchanged)
        THEN "C14 UNTOUCHED: a refused compress removed or changed the stale temporary file"
@@ -72,12 +78,13 @@ AfterRule(e) ==
   ELSE IF mode.cmd = "clone" /\ \E i \in 1..Len(e.new_files) : e.new_files[i] # "out.bin" THEN "C16 ONLYOUTPUT: clone created a file other than the output"
   ELSE IF mode.cmd = "compress" /\ ref = "none" /\ e.new_files # (IF before.exists THEN <<>> ELSE <<"out.cba">>) THEN "C16 LEFT: a successful compress did not leave exactly one new file, the archive"
   ELSE IF mode.cmd = "compress" /\ ref # "none" /\ e.new_files # <<>> THEN "C16 LEFT: a refused compress left a new file behind"
-  ELSE IF mode.cmd = "clone" /\ ref = "none" /\ ~(IF IsBd(mode) THEN e.out_prefix_eq_src ELSE e.out_eq_src) THEN "C14 RUN: clone succeeded but the output is not the source"
+  ELSE IF mode.cmd = "clone" /\ ref = "none" /\ ~LateFailure(mode) /\ ~(IF IsBd(mode) THEN e.out_prefix_eq_src ELSE e.out_eq_src) THEN "C14 RUN: clone succeeded but the output is not the source"
   ELSE "ok"
 AfterEv == /\ Step("after")
            /\ LET r == AfterRule(Ev) IN IF r = "ok" THEN NoFlag ELSE Flag(r)
            /\ UNCHANGED <<mode, before, ops, nscen, nok>> /\ Unused
-DoneEv == /\ Step("done") /\ skipping' = TRUE /\ nok' = nok + 1
+DoneEv == /\ Step("done") /\ skipping' = TRUE
+          /\ nok' = IF \E i \in 1..Len(verdicts) : verdicts[i].scenario = nscen THEN nok ELSE nok + 1
           /\ UNCHANGED <<mode, before, ops, verdicts, nverdicts, nscen>> /\ Unused
 
 TNext == Scenario \/ Skip \/ BeforeEv \/ FsOpEv \/ AfterEv \/ DoneEv
